@@ -405,6 +405,11 @@ func (it *stkInterp) evalOp(e ast.Expr) (bool, bool) {
 		return false, false
 	}
 	switch x := ast.Unparen(e).(type) {
+	case *ast.Ident:
+		// a named condition: `isDefine := op == token.Define`
+		if d := singleDef(it.p, it.fd, x); d != nil {
+			return it.evalOp(d)
+		}
 	case *ast.UnaryExpr:
 		if x.Op == token.NOT {
 			v, ok := it.evalOp(x.X)
